@@ -46,7 +46,7 @@ Section C08.
     destruct (approved_all_nodes simple' astr' mredir cdres injrisk rulematch' c t H n d Hin) as [c' [Hm Hw]].
     exists c'. split; [exact Hm|].
     destruct d as [k ss fs ks]. unfold is_kind in Hk. cbn [kind_of] in Hk. apply str_eqb_eq in Hk. subst k.
-    rewrite walk_command in Hw. apply ok_combine in Hw. rewrite !ok_app in Hw. destruct Hw as [H1 [H2 [H3 H4]]].
+    rewrite walk_command in Hw. apply ok_combine in Hw. rewrite !ok_app in Hw. destruct Hw as [H1 [_ [_ [H2 [H3 H4]]]]].
     repeat split; try assumption. intro HP. exact (proper_transfer c' _ HP H4).
   Qed.
 End C08.
